@@ -52,6 +52,38 @@ PANIC_ALLOW = {
     "AdtMetadata::new": (1, "documented limit of 255 evolution steps (type-level, not input-dependent)"),
 }
 
+# an allow-listed explicit panic that encodes a documented limit: the site must be guarded by exactly that limit
+# function -> (text the guarded term must mention, least value for which the panic may be reached)
+PANIC_GUARD = {
+    "AdtMetadata::new": ("len", 256, "more than 255 evolution steps"),
+}
+
+
+def _least_reaching(cond, value):
+    """least value of the unsigned term compared in `cond` for which the edge (cond == value) is taken, with the term; None if
+    the condition is not a lower bound"""
+    tv = guards.truth(value)
+    if tv is None or not isinstance(cond, tuple) or cond[0] != "bin" or cond[1] not in ("Lt", "Le", "Gt", "Ge"):
+        return None
+    op, l, r = cond[1], cond[2], cond[3]
+    cl, cr = guards.rng(l), guards.rng(r)
+    flip = {"Lt": "Gt", "Gt": "Lt", "Le": "Ge", "Ge": "Le"}
+    neg = {"Lt": "Ge", "Ge": "Lt", "Gt": "Le", "Le": "Gt"}
+    if cr and cr[0] == cr[1] and not (cl and cl[0] == cl[1]):
+        term, c = l, cr[0]
+    elif cl and cl[0] == cl[1]:
+        term, c, op = r, cl[0], flip[op]
+    else:
+        return None
+    if not tv:
+        op = neg[op]
+    if op == "Gt":
+        return term, c + 1
+    if op == "Ge":
+        return term, c
+    return None
+
+
 # Dispositions of external callees documented as panicking (rustdoc `# Panics`).
 CAPACITY = "capacity"      # panics only when an allocation exceeds isize::MAX / a counter exceeds usize::MAX
 GUARD = "needs-guard"      # each call site must be discharged
@@ -395,7 +427,15 @@ def may_panic(an, rep, side, rule_id, min_roots=90, min_reach=100, crate=None, r
                 if all(e is not None and e[0] >= 1 for e in ents):
                     allow = (max(e[0] for e in ents), "shared helper of %s: %s" % (sorted(users), ents[0][1]))
         if allow and len(sites) <= allow[0]:
-            for _ in sites:
+            for (b, bb, t, path) in sites:
+                g = PANIC_GUARD.get(fk) if kind == "panic" else None
+                if g:
+                    fs = guards.edge_conditions(b, mir.Expr(b)).get(bb, [])
+                    least = [x for x in (_least_reaching(c, v) for c, v, _ in fs) if x and g[0] in show(x[0])]
+                    R.check(bool(least) and max(x[1] for x in least) == g[1], fk, "guard of the documented panic",
+                            "the documented panic (%s) is reachable from %s on, not from %d on" %
+                            (g[2], max(x[1] for x in least) if least else "an unrecognised condition", g[1]), mir.loc(b, bb),
+                            sample={"fn": fk, "panic_guard": "%s >= %d" % (g[0], g[1])})
                 R.ok(sample={"fn": fk, "site": kind, "allow_listed": allow[1]})
             continue
         for (b, bb, t, path) in sites:
@@ -633,12 +673,54 @@ def classify_iter(ty, depth=0):
     return None
 
 
+def _upper_bounds(fs):
+    """{normalised term: greatest value it can have} from dominating branch facts `term < c`, `term <= c`, !(term > c) ..."""
+    out = {}
+    for cond, value, _ in fs:
+        tv = guards.truth(value)
+        if tv is None or not isinstance(cond, tuple) or cond[0] != "bin" or cond[1] not in ("Lt", "Le", "Gt", "Ge"):
+            continue
+        op, l, r = cond[1], cond[2], cond[3]
+        cl, cr = guards.rng(l), guards.rng(r)
+        flip = {"Lt": "Gt", "Gt": "Lt", "Le": "Ge", "Ge": "Le"}
+        neg = {"Lt": "Ge", "Ge": "Lt", "Gt": "Le", "Le": "Gt"}
+        if cr and cr[0] == cr[1] and not (cl and cl[0] == cl[1]):
+            term, c = l, cr[0]
+        elif cl and cl[0] == cl[1]:
+            term, c, op = r, cl[0], flip[op]
+        else:
+            continue
+        if not tv:
+            op = neg[op]
+        ub = c - 1 if op == "Lt" else c if op == "Le" else None
+        if ub is not None:
+            k = repr(guards.norm(mir.strip_refs(term)))
+            out[k] = min(out.get(k, ub), ub)
+    return out
+
+
+def _bounded_by_facts(x, ubs, limit):
+    """x, or x +/- constant, for an x with a dominating upper bound, stays <= limit"""
+    x = mir.strip_refs(x)
+    k = repr(guards.norm(x))
+    if k in ubs:
+        return ubs[k] <= limit
+    if isinstance(x, tuple) and x[0] == "bin" and x[1] in ("Sub", "SubWithOverflow", "Add", "AddWithOverflow"):
+        k = repr(guards.norm(mir.strip_refs(x[2])))
+        c = guards.rng(x[3])
+        if k in ubs and c and c[0] == c[1]:
+            v = ubs[k] - c[0] if x[1].startswith("Sub") else ubs[k] + c[0]
+            return v <= limit
+    return False
+
+
 def narrowing_casts(an, rep):
     """N6: on the encode side a length is narrowed only by a checked conversion."""
     R = rep.rule("N6", "no `as` cast from usize/u64 to a narrower integer whose operand derives from len()/size_hint() "
                        "in encode-reachable code; try_into()? (-> LengthTooLarge) is the accepted idiom")
     core, bodies = _encode_bodies(an)
     n = checked = 0
+    facts_of = {}
     for b, path in bodies:
         ex = mir.Expr(b)
         for bb in sorted(mir.reachable(b)):
@@ -657,6 +739,10 @@ def narrowing_casts(an, rep):
                 tr = guards.INT_RANGES[to]
                 if r and r[1] <= tr[1]:
                     R.ok()
+                    continue
+                facts = facts_of.setdefault(b.defn, guards.edge_conditions(b, ex))
+                if _bounded_by_facts(x, _upper_bounds(facts.get(bb, [])), tr[1]):
+                    R.ok(sample={"fn": b.key, "cast": "%s as %s" % (show(x), to), "discharged_by": "dominating upper bound"})
                     continue
                 lenlike = any((y[0] == "len") or (y[0] == "call" and (y[1] in guards.PURE_LEN or "size_hint" in y[1]
                                                                          or y[1].endswith("::len")))
